@@ -100,9 +100,14 @@ def build(s):
         return CIMMethod(s[1], s[2], parameters=[build(p) for p in s[3]],
                          **_kw(s[4] if len(s) > 4 else None))
     if t == 'inst':
-        return CIMInstance(s[1], properties=[build(p) for p in s[2]],
-                           path=build(s[3]) if s[3] is not None else None,
+        inst = CIMInstance(s[1], properties=[build(p) for p in s[2]],
                            **_kw(s[4] if len(s) > 4 else None))
+        if s[3] is not None:
+            # the path is attached last: the constructor would silently copy key property values
+            # into the keybindings of a path given to it (deprecated behaviour of __setitem__), and
+            # a spec whose key property differs from its path would not be built as written
+            inst.path = build(s[3])
+        return inst
     if t == 'class':
         return CIMClass(s[1], properties=[build(p) for p in s[2]],
                         methods=[build(m) for m in s[3]],
